@@ -1,6 +1,9 @@
 package main
 
 import (
+	"sort"
+
+	"golang.org/x/tools/go/ssa"
 	"encoding/json"
 	"os"
 	"os/exec"
@@ -18,15 +21,67 @@ func runC05(c *Ctx) {
 	c.Replayer = replayArith
 	opt := vc.Options{Safety: true, InlineDepth: 2, InlineSize: 100}
 	runContracts(c, cs, opt, defaultSolve())
+	sweepOperands(c, cs, opt)
 	c.Assume = append(c.Assume, "math/big arithmetic is assumed exact (dependency)", "float branches are not covered")
 }
 
+// sweepOperands: the package-wide contract `every-function <pkg> operands-kept`: every function of the
+// package that calls a mutating math/big method (directly, or in a helper inlined into it) is verified
+// with the family-O obligations. Functions that have a contract block of their own carrying
+// operands-kept were already verified by runContracts.
+func sweepOperands(c *Ctx, cs *vc.Contracts, opt vc.Options) {
+	pkgs := map[string]bool{}
+	for _, p := range cs.Sweeps["operands-kept"] {
+		pkgs[p] = true
+	}
+	if len(pkgs) == 0 {
+		return
+	}
+	var names []string
+	for n := range c.P.Funcs {
+		names = append(names, n)
+	}
+	sort.Strings(names)
+	var roots []*ssa.Function
+	for _, n := range names {
+		fn := c.P.Funcs[n]
+		if !pkgs[pkgShort(fn)] || len(fn.Blocks) == 0 || fn.Parent() != nil {
+			continue
+		}
+		if ct := cs.ByFunc[n]; ct != nil {
+			done := false
+			for _, p := range ct.Props {
+				if p == c.Prop {
+					done = true
+				}
+			}
+			if done {
+				continue
+			}
+		}
+		if vc.CallsBigMutator(fn) {
+			roots = append(roots, fn)
+		}
+	}
+	o := opt
+	o.Contracts = cs
+	o.OperandsKept = true
+	o.Safety = false
+	res := c.runUnits(roots, o, defaultSolve(), 16)
+	c.addResults(res)
+	c.Extra["operands_kept_sweep_functions"] = len(roots)
+}
+
 var arithOps = map[string][]string{
-	"cl.addNumbers": {"+"}, "cl.(*Add).Call": {"+"}, "cl.(*Subtract).Call": {"-", "-/1"}, "cl.(*Multiply).Call": {"*"}, "cl.(*Divide).Call": {"/"},
+	"cl.addNumbers": {"+", "incf-second", "decf-second"}, "cl.(*Add).Call": {"+"}, "cl.(*Subtract).Call": {"-", "-/1"}, "cl.(*Multiply).Call": {"*"}, "cl.(*Divide).Call": {"/"},
 	"cl.floor": {"floor", "mod"}, "cl.ceiling": {"ceiling"}, "cl.truncate": {"truncate", "rem"}, "cl.round": {"round"},
-	"cl.(*Mod).Call": {"mod"}, "cl.(*Rem).Call": {"rem"}, "cl.(*Abs).Call": {"abs/1"}, "cl.(*Oneplus).Call": {"1+/1"}, "cl.(*Oneminus).Call": {"1-/1"},
-	"cl.(*Gcd).Call": {"gcd"}, "cl.gcd": {"gcd"}, "cl.(*Isqrt).Call": {"isqrt/1", "isqrt"}, "cl.(*Decf).Call": {"decf-second"}, "cl.(*Incf).Call": {"incf-second"},
-	"cl.(*Lt).Call": {"<"}, "cl.(*Gt).Call": {">"}, "cl.(*Lte).Call": {"<="}, "cl.(*Gte).Call": {">="}, "cl.(*Same).Call": {"="}, "cl.(*Max).Call": {"max"}, "cl.(*Min).Call": {"min"},
+	"cl.(*Mod).Call": {"mod"}, "cl.(*Rem).Call": {"rem"}, "cl.(*Abs).Call": {"abs/1", "abs"}, "cl.(*Oneplus).Call": {"1+/1", "1+"}, "cl.(*Oneminus).Call": {"1-/1", "1-"},
+	"cl.(*Gcd).Call": {"gcd"}, "cl.gcd": {"gcd"}, "cl.(*Lcm).Call": {"lcm"}, "cl.(*Isqrt).Call": {"isqrt/1", "isqrt"}, "cl.(*Decf).Call": {"decf-second"}, "cl.(*Incf).Call": {"incf-second"},
+	"cl.(*Lt).Call": {"<", "compare"}, "cl.(*Gt).Call": {">", "compare"}, "cl.(*Lte).Call": {"<=", "compare"}, "cl.(*Gte).Call": {">=", "compare"}, "cl.(*Same).Call": {"=", "compare"}, "cl.(*Max).Call": {"max"}, "cl.(*Min).Call": {"min"},
+	"cl.(*IntegerLength).Call": {"integer-length"}, "cl.(*control).getEFGarg": {"format-e"}, "cl.(*Ldb).Place": {"setf-ldb"}, "cl.(*MaskField).Place": {"setf-mask-field"},
+	"cl.(*Expt).Call": {"expt"}, "cl.(*Ash).Call": {"ash"}, "cl.(*Logand).Call": {"logand"}, "cl.(*Logior).Call": {"logand"}, "cl.(*Logxor).Call": {"logand"}, "cl.(*Lognot).Call": {"logand"},
+	"cl.(*Signum).Call": {"signum"}, "cl.(*Evenp).Call": {"signum"}, "cl.(*Oddp).Call": {"signum"}, "cl.(*Numerator).Call": {"numerator"}, "cl.(*Denominator).Call": {"numerator"},
+	"cl.(*Zerop).Call": {"compare"}, "cl.(*Plusp).Call": {"compare"}, "cl.(*Minusp).Call": {"compare"},
 }
 
 type arithFailure struct {
@@ -71,6 +126,8 @@ func replayArith(c *Ctx, items []*Item) map[string]*ReplayOutcome {
 				}
 				match := false
 				switch {
+				case strings.HasPrefix(it.Kind, "operand-kept"):
+					match = f.Kind == "mutated"
 				case strings.HasPrefix(it.Kind, "exact"):
 					match = f.Kind == "value"
 				case strings.HasPrefix(it.Kind, "safe:div"):
